@@ -56,7 +56,7 @@ func (f MultipartForm) maxMemory() int64 {
 }
 
 func (f MultipartForm) Do(w http.ResponseWriter, r *http.Request, exec graphql.GraphExecutor) {
-	writeHeaders(w, f.ResponseHeaders)
+	responseContentType := writeNegotiatedHeaders(w, f.ResponseHeaders, r)
 
 	start := graphql.Now()
 
@@ -213,7 +213,7 @@ func (f MultipartForm) Do(w http.ResponseWriter, r *http.Request, exec graphql.G
 	rc, gerr := exec.CreateOperationContext(r.Context(), &params)
 	if gerr != nil {
 		resp := exec.DispatchError(graphql.WithOperationContext(r.Context(), rc), gerr)
-		w.WriteHeader(statusFor(gerr))
+		w.WriteHeader(statusForContentType(responseContentType, gerr))
 		writeJson(w, resp)
 		return
 	}
